@@ -877,6 +877,73 @@ fn load_corpus(dir: &str) -> Vec<Vec<u8>> {
     v
 }
 
+/// the leaf tables of the model against the code, exhaustively: the nine byte classes of core.rs on
+/// all 256 bytes, and UTF-8 validity (`std::str::from_utf8` vs `Bytes.validUtf8`) on every 1- and
+/// 2-byte string with a non-ASCII lead and on the boundary families of 3- and 4-byte sequences
+fn run_tables(ctx: &mut Ctx) {
+    use imap_proto::parser::core as c;
+    let preds: Vec<(&str, fn(u8) -> bool)> = vec![
+        ("atom_char", c::is_atom_char),
+        ("astring_char", c::is_astring_char),
+        ("text_char", c::is_text_char),
+        ("char8", c::is_char8),
+        ("atom_specials", c::is_atom_specials),
+        ("resp_specials", c::is_resp_specials),
+        ("quoted_specials", c::is_quoted_specials),
+        ("list_wildcards", c::is_list_wildcards),
+        ("char", c::is_char),
+    ];
+    let mut ops: Vec<String> = vec![];
+    let mut imps: Vec<String> = vec![];
+    for (name, f) in &preds {
+        for b in 0..=255u8 {
+            ops.push(format!("pred {} {}", name, b));
+            imps.push(if f(b) { "1".to_string() } else { "0".to_string() });
+        }
+    }
+    let mut strings: Vec<Vec<u8>> = vec![vec![]];
+    for a in 0..=255u8 {
+        strings.push(vec![a]);
+    }
+    for a in 0x80..=255u8 {
+        for b in 0..=255u8 {
+            strings.push(vec![a, b]);
+        }
+    }
+    // three- and four-byte sequences around the ranges of Unicode table 3-7
+    for a in [0xE0u8, 0xE1, 0xEC, 0xED, 0xEE, 0xEF, 0xF0, 0xF1, 0xF3, 0xF4, 0xF5] {
+        for b in [0x7Fu8, 0x80, 0x8F, 0x90, 0x9F, 0xA0, 0xBF, 0xC0] {
+            for cc in [0x7Fu8, 0x80, 0xBF, 0xC0] {
+                strings.push(vec![a, b, cc]);
+                for d in [0x7Fu8, 0x80, 0xBF, 0xC0] {
+                    strings.push(vec![a, b, cc, d]);
+                    strings.push(vec![b'x', a, b, cc, d, b'y']);
+                }
+            }
+        }
+    }
+    for sb in &strings {
+        ops.push(if sb.is_empty() { "utf8".to_string() } else { format!("utf8 {}", hex(sb)) });
+        imps.push(if std::str::from_utf8(sb).is_ok() { "1".to_string() } else { "0".to_string() });
+    }
+    let n = ops.len();
+    for chunk in 0..((n + 3999) / 4000) {
+        let lo = chunk * 4000;
+        let hi = std::cmp::min(n, lo + 4000);
+        let replies = ctx.model.eval_batch(&ops[lo..hi]);
+        for i in lo..hi {
+            ctx.log.compared += 1;
+            ctx.log.evaluations += 1;
+            if replies[i - lo] != imps[i] {
+                ctx.log.disagree(Disagreement { op: ops[i].clone(), imp: imps[i].clone(), model: replies[i - lo].clone(), note: "leaf-table".to_string() });
+            }
+        }
+    }
+    ctx.log.count_n("tables:byte-class-entries", (preds.len() * 256) as u64);
+    ctx.log.count_n("tables:utf8-strings", strings.len() as u64);
+    ctx.log.exhaustive.push("the nine byte classes of core.rs on all 256 bytes; UTF-8 validity of every string of length <= 2 with a non-ASCII lead byte".to_string());
+}
+
 fn rule_of(prop: &str) -> &'static str {
     match prop {
         "C01" => "inputs: built-in + corpus + generated valid responses, 1-3 stacked mutations (token insert/replace/delete, byte flip, splice, string-form substitution incl. non-UTF-8/NUL literals, numeral substitution, truncation, duplication), nesting sweep in a 2 MiB child thread; non-trivial = distinct input (hash of bytes) whose verdict is not INC or that is longer than 2 bytes",
@@ -989,6 +1056,7 @@ fn main() {
                                 vec![1, 2, 8, 31, 32, 33, 34, 35, 100, 400, 1000, 20000]
                             };
                             run_nesting(&mut ctx, &levels);
+                            run_tables(&mut ctx);
                         }
                     }
                     "C02" => {
